@@ -727,32 +727,6 @@ example : extrudeScalar [⟨0, 0, 0⟩, ⟨1, 0, 0⟩, ⟨1, 1, 0⟩, ⟨0, 1, 0
 
 /-! ### a third surface on a projected edge -/
 
-theorem length_insertSorted_not_mem (l : String) : ∀ ls : List String, l ∉ ls → (insertSorted l ls).length = ls.length + 1 := by
-  intro ls
-  induction ls with
-  | nil => intro _; rfl
-  | cons x xs ih =>
-    intro hn
-    have hx : l ≠ x := fun h => hn (by simp [h])
-    have hxs : l ∉ xs := fun h => hn (by simp [h])
-    unfold insertSorted
-    split
-    · simp
-    · simp only [hx, if_false, List.length_cons, ih hxs]
-
-theorem length_insertSorted_bounds (l : String) : ∀ ls : List String,
-    1 ≤ (insertSorted l ls).length ∧ (insertSorted l ls).length ≤ ls.length + 1 := by
-  intro ls
-  induction ls with
-  | nil => simp [insertSorted]
-  | cons x xs ih =>
-    unfold insertSorted
-    split
-    · simp
-    · split
-      · simp
-      · simp only [List.length_cons]; omega
-
 /-- **`Project.add_label` / `check_length`**: an edge slot that already holds two surfaces refuses every further surface
     that is not one of the two (`EdgeCreationError`: blockMesh projects an edge to one surface or to the intersection of two),
     and a slot holding at most one surface accepts any label — for every operation state, slot and label; so
@@ -835,17 +809,6 @@ example : (0 : Rat) < (1 - 0) * (2 - 1) - (1 - 1) * (0 - 0) ∧
 /-- `FacePair.alignment` for unit normals `n1`, `n2` and the vector `v` between the two face centres, with `w = |v|` as a witness:
     `dot(v/|v|, n1)³ + dot(−v/|v|, n2)³` -/
 def alignment (v n1 n2 : V3) (w : Rat) : Rat := (V3.dot v n1 / w) ^ 3 + (-(V3.dot v n2) / w) ^ 3
-
-theorem cube_le_one (x : Rat) (h : x * x ≤ 1) : x ^ 3 ≤ 1 ∧ (x ^ 3 = 1 → x = 1) := by
-  have hx1 : x ≤ 1 := by nlinarith [sq_nonneg (x - 1), sq_nonneg (x + 1)]
-  have hq : 0 < 1 + x + x * x := by nlinarith [sq_nonneg (x + 1 / 2)]
-  constructor
-  · nlinarith [mul_nonneg (sub_nonneg.mpr hx1) (le_of_lt hq)]
-  · intro h3
-    have : (1 - x) * (1 + x + x * x) = 0 := by ring_nf; ring_nf at h3; linarith
-    rcases mul_eq_zero.mp this with h' | h'
-    · linarith
-    · exact absurd h' (ne_of_gt hq)
 
 /-- **what `Connector` looks for**: among the candidate pairs it keeps, it takes one of maximal alignment; the alignment of any
     pair of faces is at most 2, and it is 2 exactly when both faces look squarely at each other along the line of their centres
